@@ -151,9 +151,10 @@ func (r *Run) execHelperTx(t *Task, idx int, tx *TxPlan) {
 			continue
 		}
 		if got != want {
-			r.violate(Violation{Props: []string{"C18"}, Oracle: "helpers", Sig: "helper-result-differs:" + op.K,
-				Detail: fmt.Sprintf("%s.%d step %d %s under concurrency:\n   got:    %s\n   serial: %s", t.Name, idx, i, op, got, want)})
-			panic(abortSig{})
+			if r.violate(Violation{Props: []string{"C18"}, Oracle: "helpers", Sig: "helper-result-differs:" + op.K,
+				Detail: fmt.Sprintf("%s.%d step %d %s under concurrency:\n   got:    %s\n   serial: %s", t.Name, idx, i, op, got, want)}) {
+				panic(abortSig{})
+			}
 		}
 	}
 	t.Yield("helper.end", NeedNone)
